@@ -449,6 +449,22 @@ def run_single(ctx, cfg):
                           "%s: transform accepted data whose fully missing features %r differ from the training data's %r (%s)"
                           % (what, mc, miss_c, vn), dict(rp, failed="mask-" + vn))
         ctx.dist["api/single/transform-mask-%s/%s" % (vn, "refused" if g else "ACCEPTED")] += 1
+    if variants and cfg["seed"] % 2 == 0:
+        # the same refusals from a model whose results are deferred (compute=False): what is compared is the mask of the training data,
+        # whatever the state of the stored statistics
+        try:
+            ml = EOF(**dict(kw, compute=False))
+            ml.fit(Xm, "time")
+            for vn, mc in variants.items():
+                Xv = build(layout, masked(M, miss_r, mc), tl)
+                g, k = expect_raise(lambda: ml.transform(Xv))
+                if not g:
+                    ctx.violation("%s:mask-differs-not-refused:%s:deferred" % (key, vn),
+                                  "%s with compute=False: transform accepted data whose fully missing features %r differ from the training data's %r (%s)"
+                                  % (what, mc, miss_c, vn), dict(rp, failed="mask-" + vn, compute=False))
+                ctx.dist["api/single/deferred/transform-mask-%s/%s" % (vn, "refused" if g else "ACCEPTED")] += 1
+        except Exception as e:
+            ctx.violation(key + ":deferred:error:" + C.errkind(e), "%s with compute=False raised %r" % (what, e), dict(rp, compute=False))
     if layout == "list":
         # a sample entirely missing in ONE list element only is not a fully missing sample: refuse at fit and at transform
         i0 = keep_r[int(r.integers(0, len(keep_r)))]
